@@ -11,7 +11,7 @@ META = dict(
     technique='symbolic execution (sx proxies, LIA) of the real pool/connection/future code over solver-enumerated event interleavings + z3 validity per path',
     bounds=dict(quick='<= 3 requests, histories of <= 5 events + drain; capacity 2..3 streams, orphan threshold 1..2; replace step: in_flight, orphan count in [0, 32767] symbolic',
                 thorough='<= 4 requests, histories of <= 7 events + drain'),
-    assumptions=['each server answer arrives at most once per stream'],
+    assumptions=['race jobs: a timer (client-side timeout, speculative execution) may fire on a thread other than the event loop\'s, so it can overlap the handling of a response - Connection.create_timer does not promise otherwise and the driver itself guards _on_timeout with the connection lock; with the bundled reactors timers run on the event-loop thread, for which these schedules are an over-approximation; two responses are never handled at the same time', 'each server answer arrives at most once per stream'],
     stubs=['transport/timers/executor: harness kit', 'protocol codec: identity'],
     outside=['pre-emption between the two lock regions of one pool method (sync-point-level schedules)'],
 )
